@@ -170,6 +170,12 @@ func resolveFuncValue(v ssa.Value, d int) *ssa.Function {
 		return x.Fn.(*ssa.Function)
 	case *ssa.ChangeType:
 		return resolveFuncValue(x.X, d+1)
+	case *ssa.Parameter:
+		// a func-typed parameter of a helper, bound (for the analysis under way) to the literal the caller passes
+		if f, ok := funcParamBinding[x]; ok {
+			return f
+		}
+		return nil
 	case *ssa.UnOp:
 		if x.Op != token.MUL {
 			return nil
@@ -951,4 +957,47 @@ func storesToVar(v lvar) []*ssa.Store {
 		})
 	}
 	return out
+}
+
+// funcParamBinding: while a rule analyses one caller, the func-typed parameters of the in-package helpers it calls stand for
+// the function literals that caller passes (g.runEachTime(func() bool { … select … }, f)): calls of the parameter are then
+// followed like static calls by staticCallee and everything built on it (deep views, typestate summaries).
+var funcParamBinding = map[*ssa.Parameter]*ssa.Function{}
+
+// bindFuncParams binds, for every static in-package call in fn (and the literals nested in it), the callee's func-typed
+// parameters to the literals / functions passed; the returned function removes the bindings.
+func bindFuncParams(fn *ssa.Function) func() {
+	var bound []*ssa.Parameter
+	for _, g := range withAnon(fn) {
+		instrs(g, func(_ *ssa.BasicBlock, _ int, in ssa.Instruction) {
+			call, ok := in.(*ssa.Call)
+			if !ok {
+				return
+			}
+			cal := staticCallee(&call.Call)
+			if cal == nil || cal.Blocks == nil || cal.Parent() != nil || rootFn(origin(cal)).Pkg != rootFn(fn).Pkg {
+				return
+			}
+			o := origin(cal)
+			for i, a := range call.Call.Args {
+				if i >= len(o.Params) {
+					continue
+				}
+				if _, isSig := o.Params[i].Type().Underlying().(*types.Signature); !isSig {
+					continue
+				}
+				if lit := resolveFuncValue(a, 0); lit != nil && lit.Parent() != nil {
+					if _, dup := funcParamBinding[o.Params[i]]; !dup {
+						funcParamBinding[o.Params[i]] = lit
+						bound = append(bound, o.Params[i])
+					}
+				}
+			}
+		})
+	}
+	return func() {
+		for _, p := range bound {
+			delete(funcParamBinding, p)
+		}
+	}
 }
